@@ -1250,6 +1250,11 @@ def resolve_unversioned_parent(tt, path_tree, c_type, trans_id):
     if path_tree and path_tree.path2id("") == file_id:
         # This is the root entry, skip it
         return
+    if file_id is None:
+        # The directory never had a file id (it is new, or an unversioned or
+        # missing path of the tree): there is nothing to re-activate.  Leave
+        # the conflict; resolve_conflicts reports the transform as malformed.
+        return
     tt.version_file(trans_id, file_id=file_id)
     yield (c_type, "Versioned directory", trans_id)
 
@@ -1276,12 +1281,18 @@ def resolve_non_directory_parent(tt, path_tree, c_type, parent_id):
         parent_file_id = tt.final_file_id(parent_id)
     else:
         parent_file_id = b"DUMMY"
+    if parent_file_id is not None:
+        # The new directory takes the file id over: release it first.  An id
+        # assigned in this transform can only be held by one trans_id.
+        try:
+            tt.cancel_versioning(parent_id)
+        except KeyError:
+            pass
+        tt.unversion_file(parent_id)
     new_parent_id = tt.new_directory(
         parent_name + ".new", parent_parent, parent_file_id
     )
     _reparent_transform_children(tt, parent_id, new_parent_id)
-    if parent_file_id is not None:
-        tt.unversion_file(parent_id)
     yield (c_type, "Created directory", new_parent_id)
 
 
